@@ -18,7 +18,7 @@ type updSpec struct {
 // heightSpec plans one canonical height.
 type heightSpec struct {
 	Txs      []string  `json:"txs,omitempty"`
-	Updates  []updSpec `json:"upd,omitempty"`  // validator updates returned by EndBlock (sanitised when the chain is built)
+	Updates  []updSpec `json:"upd,omitempty"` // validator updates returned by EndBlock (sanitised when the chain is built)
 	Round    int32     `json:"round,omitempty"`
 	FlagPref []int     `json:"flags,omitempty"` // per commit slot (mod len): 0 for-block, 1 absent, 2 nil; repaired to +2/3
 }
@@ -33,15 +33,16 @@ type respSpec struct {
 
 // peerSpec scripts one peer double.
 type peerSpec struct {
-	Role        string     `json:"role"`             // "honest" (full chain), "partial" (honest, shorter range), "liar"
-	Status      string     `json:"status"`           // "true", "stale", "inflated", "invalid"
-	StatusArg   int        `json:"sarg,omitempty"`   // how far off
-	BaseArg     int        `json:"barg,omitempty"`   // partial: base = initial+BaseArg
-	StatusDelay int        `json:"sdelay,omitempty"` // ticks before the first StatusResponse
-	Resp        []respSpec `json:"resp,omitempty"`   // per height index (0 = initial height); beyond the tip: see Beyond
-	Beyond      respSpec   `json:"beyond"`           // behaviour for heights above the canonical tip (inflated status)
+	Role        string     `json:"role"`              // "honest" (full chain), "partial" (honest, shorter range), "liar"
+	Status      string     `json:"status"`            // "true", "stale", "inflated", "invalid", "none", "narrow" (one block: initial+StatusArg)
+	StatusArg   int        `json:"sarg,omitempty"`    // how far off
+	BaseArg     int        `json:"barg,omitempty"`    // partial: base = initial+BaseArg
+	StatusDelay int        `json:"sdelay,omitempty"`  // ticks before the first StatusResponse
+	Resp        []respSpec `json:"resp,omitempty"`    // per height index (0 = initial height); beyond the tip: see Beyond
+	Beyond      respSpec   `json:"beyond"`            // behaviour for heights above the canonical tip (inflated status)
 	Status2     string     `json:"status2,omitempty"` // optional later unsolicited status ("true"|"stale"|"inflated")
 	Status2At   int        `json:"s2at,omitempty"`
+	JoinAt      int        `json:"join,omitempty"` // driver tick at which the peer connects (0: from the start)
 	Push        *pushSpec  `json:"push,omitempty"` // pushes unsolicited blocks for heights requested from OTHER peers
 }
 
@@ -128,7 +129,8 @@ func genScenario(t *rapid.T, reactor string, thorough bool) *scenario {
 		}
 		sc.Powers = append(sc.Powers, p)
 	}
-	n := rapid.IntRange(6, 10).Draw(t, "nblocks")
+	// mostly 6-10 blocks; short chains (hand-over after 0, 1 or 2 applied blocks) in about a fifth of the cases
+	n := rapid.SampledFrom([]int{1, 2, 2, 3, 6, 6, 7, 7, 8, 8, 9, 9, 10, 10, 6, 8}).Draw(t, "nblocks")
 	for i := 0; i < n; i++ {
 		var hs heightSpec
 		for j := 0; j < rapid.SampledFrom([]int{0, 0, 1, 2, 3}).Draw(t, "ntx"); j++ {
@@ -177,7 +179,13 @@ func genScenario(t *rapid.T, reactor string, thorough bool) *scenario {
 		}
 		sc.Peers = append(sc.Peers, ps)
 	}
-	useCoalition := nLiars >= 2 && rapid.IntRange(0, 3).Draw(t, "coalition") == 0
+	// an honest full peer may connect late (the first one is there from the start)
+	for i := range sc.Peers {
+		if i > 0 && sc.Peers[i].Role == "honest" {
+			sc.Peers[i].JoinAt = rapid.SampledFrom([]int{0, 0, 20, 60}).Draw(t, "joinat")
+		}
+	}
+	useCoalition := nLiars >= 2 && n >= 2 && rapid.IntRange(0, 3).Draw(t, "coalition") == 0
 	if useCoalition {
 		sc.Coalition = &coalitionSpec{Target: rapid.IntRange(0, n-2).Draw(t, "ctarget"),
 			Field: rapid.SampledFrom(coalitionFields).Draw(t, "cfield")}
@@ -188,7 +196,7 @@ func genScenario(t *rapid.T, reactor string, thorough bool) *scenario {
 	}
 	for i := 0; i < nLiars; i++ {
 		ps := peerSpec{Role: "liar", StatusDelay: rapid.IntRange(0, 3).Draw(t, "sdelay")}
-		ps.Status = rapid.SampledFrom([]string{"true", "true", "true", "true", "stale", "inflated", "inflated", "invalid"}).Draw(t, "status")
+		ps.Status = rapid.SampledFrom([]string{"true", "true", "true", "true", "stale", "inflated", "inflated", "invalid", "narrow", "narrow"}).Draw(t, "status")
 		if ps.Status == "invalid" && rapid.Bool().Draw(t, "rarely-invalid") {
 			ps.Status = "true"
 		}
@@ -217,6 +225,19 @@ func genScenario(t *rapid.T, reactor string, thorough bool) *scenario {
 				kind = rapid.SampledFrom(commitLies).Draw(t, "commit")
 			}
 			ps.Resp[h].Kind = kind
+		}
+		if ps.Status == "narrow" {
+			// advertises exactly one height and lies about it: either a wrong block that still carries the genuine
+			// LastCommit (it helps the node store the predecessor and is then verified as the FIRST of a pair whose
+			// second comes from somebody else), or the right block with a wrong LastCommit (the SECOND of a pair whose
+			// first comes from somebody else)
+			ps.StatusArg = rapid.IntRange(0, n-1).Draw(t, "narrowat")
+			ps.Status2 = ""
+			if rapid.Bool().Draw(t, "narrowcontent") {
+				ps.Resp[ps.StatusArg].Kind = rapid.SampledFrom([]string{"tx-tamper", "hdr-tamper", "fork"}).Draw(t, "ncontent")
+			} else {
+				ps.Resp[ps.StatusArg].Kind = rapid.SampledFrom(commitLies).Draw(t, "ncommit")
+			}
 		}
 		if useCoalition {
 			ps.Resp[sc.Coalition.Target].Kind = "quorum-invalid"
@@ -293,7 +314,7 @@ func genPushPeers(t *rapid.T, sc *scenario, n int) {
 			ps.Resp = append(ps.Resp, genResp(t, "right", "lresp"))
 		}
 		ps.Push = &pushSpec{Kind: rapid.SampledFrom(pushLieKinds).Draw(t, "pushkind"), Arg: rapid.IntRange(0, 15).Draw(t, "pusharg"),
-			Delay: rapid.IntRange(0, 3).Draw(t, "pushdelay"), From: rapid.SampledFrom([]int{0, 0, 0, 1, 3, n - 2}).Draw(t, "pushfrom")}
+			Delay: rapid.IntRange(0, 3).Draw(t, "pushdelay"), From: rapid.SampledFrom([]int{0, 0, 0, 1 % n, 3 % n, (n + n - 2) % n}).Draw(t, "pushfrom")}
 		sc.Peers = append(sc.Peers, ps)
 	}
 	perm := rapid.Permutation(seq(len(sc.Peers))).Draw(t, "peerorder")
